@@ -1,5 +1,8 @@
 import XjsModel.Proofs.PrinterErase
 import XjsModel.Proofs.PrinterComments
+import XjsModel.Proofs.ParserAnchorPass
+import XjsModel.Proofs.CommentsHead
+import XjsModel.Proofs.LexerTrivia
 /-
   C15 — The pretty printer keeps statement-level comments; compact output has none.
 
@@ -57,6 +60,45 @@ theorem comments_follow_statement_order (s : Stmt) (rest : StmtList) (tok rb : T
     (Stmt.block tok (.cons s rest) rb).cmts = tok.comments ++ (s.cmts ++ rest.cmts) ++ rb.comments := by
   simp [StmtList.cmts, Stmt.cmts]
 
+/-! ### from the source text to the token, from the token to the statement -/
+
+/-- LEXER: the entries a token carries are those of the text between the previous token and it (`Tiling.Entries`:
+    one empty entry per line feed that does not end a comment, one entry per `//` comment holding its text without
+    trailing spaces) — for every token request, at any cursor -/
+theorem token_carries_the_entries_of_its_gap (s : LS) :
+    Tiling.Entries (s.rest.take (trivia s.rest).len) (nextToken s).1.comments :=
+  Tiling.token_comments_are_gap_entries s
+
+/-- … and a text has one list of entries -/
+theorem gap_entries_are_unique {b : Bytes} {es es' : List Bytes} (h : Tiling.Entries b es) (h' : Tiling.Entries b es') :
+    es = es' := h.unique h'
+
+/-- PARSER: every call of `ParseStatement` (through any interceptor chain, in any mode, at any depth) that records no
+    error returns a statement whose first token is the token the parser stood on — the one that carries the comments
+    written in front of the statement -/
+theorem statement_starts_at_the_cursor (cfg : PCfg) (is : List SI) (st : PS) (s : Stmt) (st' : PS)
+    (h : parseStatementI cfg is st = some (s, st')) (hok : st'.elen = st.elen) : s.firstTok = some st.cur := by
+  obtain ⟨_, h2⟩ := (anchor_mutual cfg).1 is st (s, st') h
+  rcases h2 with h2 | h2
+  · exact h2
+  · dsimp only at h2; omega
+
+/-- PARSER: a block keeps its two braces: the `{` it began at and the token its statement loop stopped at (the `}`;
+    the comments after the last statement travel on it) -/
+theorem block_keeps_its_braces (cfg : PCfg) (st : PS) (s : Stmt) (st' : PS)
+    (h : parseBlockStatement cfg st = some (s, st')) : ∃ ss, s = .block st.cur ss st'.cur := by
+  rw [parseBlockStatement.eq_def] at h
+  obtain ⟨⟨ss, st1⟩, h1, h2⟩ := bind_some h
+  dsimp only at h2
+  cases h2
+  refine ⟨ss, ?_⟩
+  split <;> rfl
+
+/-- PRINTER: what is replayed for a statement starts with the entries of its first token (no comment on a postfix
+    operator of its left spine — `postfixBare`, see `Spec/Comments`) -/
+theorem replay_starts_with_the_first_token (s : Stmt) (h : s.postfixBare = true) :
+    ∃ rest, s.cmts = headCmts s.firstTok ++ rest := s.cmts_head h
+
 /-! Non-vacuity: the comment on a statement's first token is written in pretty mode and logged -/
 example :
     let t : Token := { type := .ident, lit := [97], sl := 1, sc := 0, el := 1, ec := 1, nl := true, comments := [[32, 104, 105]] }
@@ -76,3 +118,8 @@ end Xjs.C15
 #print axioms Xjs.C15.pretty_replays_every_comment_once_in_order
 #print axioms Xjs.C15.compact_writes_no_comment
 #print axioms Xjs.C15.replay_is_verbatim
+#print axioms Xjs.C15.token_carries_the_entries_of_its_gap
+#print axioms Xjs.C15.gap_entries_are_unique
+#print axioms Xjs.C15.statement_starts_at_the_cursor
+#print axioms Xjs.C15.block_keeps_its_braces
+#print axioms Xjs.C15.replay_starts_with_the_first_token
